@@ -92,10 +92,12 @@ def gen_cases(rng, tier):
             cases.append({"kind": "scope", "model": m, "seed": rng.randrange(2**32)})
     for _ in range(3 if tier == "quick" else 40):
         cases.append({"kind": "app", "seed": rng.randrange(2**32)})
+    for _ in range(8 if tier == "quick" else 60):
+        cases.append({"kind": "bound", "seed": rng.randrange(2**32)})
     return cases
 
 
-def make_data(rng, model, ntips, ncols):
+def make_data(rng, model, ntips, ncols, ts_bias=0.0):
     kind = M.kind_of(model)
     tree = M.random_tree(rng, ntips, rooted=False, polytomy=0.0, zero_frac=0.0)
     for e in M.edges(tree):
@@ -107,7 +109,14 @@ def make_data(rng, model, ntips, ncols):
     else:
         w = [rng.uniform(0.5, 2) for _ in range(4)]
         base = rng.choices("ACGT", weights=w, k=ncols)
-        aln = {n: "".join(c if rng.random() > 0.18 else rng.choice("ACGT") for c in base) for n in names}
+        ts = {"A": "G", "G": "A", "C": "T", "T": "C"}
+
+        def mutate(c):
+            if rng.random() > 0.18:
+                return c
+            return ts[c] if rng.random() < ts_bias else rng.choice("ACGT")
+
+        aln = {n: "".join(mutate(c) for c in base) for n in names}
     return tree, aln
 
 
@@ -381,6 +390,33 @@ def run_app(res, rng, tier):
     res.sig("app", null_name, alt_name, opt["max_evaluations"])
 
 
+def run_bound(res, rng, tier):
+    """a transition-rate parameter starts ON its declared upper bound and the data put its maximum beyond it, so the
+    optimised value ends exactly at the bound: the value written back to the function must stay there"""
+    model = rng.choice(["HKY85", "TN93", "GTR"])
+    par = {"HKY85": "kappa", "TN93": rng.choice(["kappa_r", "kappa_y"]), "GTR": rng.choice(["A/G", "C/T"])}[model]
+    upper = rng.choice([2.0, 3.0, 5.0, 10.0, 30.0])
+    tree, aln = make_data(rng, model, rng.randint(3, 5), rng.randint(150, 400), ts_bias=0.95)
+    detail = {"model": model, "par": par, "upper": upper, "tree": M.newick(tree), "aln": aln}
+    try:
+        lf = build(model, tree, aln)
+        lf.set_param_rule(par, init=upper, upper=upper)
+    except Exception as e:  # noqa: BLE001
+        res.evals += 1
+        res.witness(exc_mechanism("C16/start-on-upper-bound/build", e), **detail)
+        return
+    res.count("start-on-upper-bound")
+    final = optimise_and_decide(res, lf, rng, tier, "start-on-upper-bound", detail, ("bound", model, "single"))
+    if final is not None:
+        v = float(lf.get_param_value(par))
+        res.evals += 1
+        if v > upper * (1 + 1e-9) or v < 1e-6:
+            res.witness("C16/start-on-upper-bound/value-outside-bounds-after-optimise", value=v, **detail)
+        if abs(v - upper) <= 1e-6 * upper:
+            res.count("start-on-upper-bound:ended-on-bound")
+            res.sig("bound", model, par, upper, "ended-on-bound")
+
+
 def run_case(case):
     res = Result()
     rng = random.Random(case["seed"])
@@ -391,11 +427,13 @@ def run_case(case):
         run_scope(res, rng, tier, case["model"])
     elif case["kind"] == "app":
         run_app(res, rng, tier)
+    elif case["kind"] == "bound":
+        run_bound(res, rng, tier)
     return res
 
 
 def required(counters, tier):
-    need = ["nested-init-checked", "nested-init:null-with-constant-rate-param", "nested-by-scope", "trace-checked", "trace:optimiser-last-not-best", "optimiser:local", "bounds-checked", "LR-checked", "app-hypothesis-runs", "budget:1", "budget:200"]
+    need = ["start-on-upper-bound:ended-on-bound", "nested-init-checked", "nested-init:null-with-constant-rate-param", "nested-by-scope", "trace-checked", "trace:optimiser-last-not-best", "optimiser:local", "bounds-checked", "LR-checked", "app-hypothesis-runs", "budget:1", "budget:200"]
     if not (counters.get("optimiser:global") or counters.get("optimiser:global+local")):
         need.append("optimiser:global")
     return [n for n in need if not counters.get(n)]
